@@ -85,10 +85,57 @@ func c11Hash(t *testing.T, c c11Claim) string {
 	return hex.EncodeToString(h)
 }
 
+// c11CrossType is the monitor behind `claim_types_never_pool`: exhaustively over a small value
+// domain (numbers whose decimal rendering equals the hex rendering of a short string included), no
+// two claims of DIFFERENT types may share a hash - `Attest` keys attestations by (nonce, hash) only
+// and never compares the claim type.
+func c11CrossType(t *testing.T, r *Rec, meta valsettypes.MsgMetadata) {
+	nums := []uint64{1, 31, 61}
+	strs := []string{"a", "1"}
+	amts := []sdkmath.Int{sdkmath.NewInt(1), sdkmath.NewInt(31), sdkmath.NewInt(61)}
+	seen := map[string]c11Claim{}
+	add := func(c c11Claim) {
+		h := c11Hash(t, c)
+		r.Stat("crosstype.claims")
+		if o, ok := seen[h]; ok {
+			if fmt.Sprintf("%T", o) != fmt.Sprintf("%T", c) {
+				r.Hit("types_never_collide", fmt.Sprintf("a %T and a %T have the same claim hash", o, c), map[string]string{"a": c11Line(o), "b": c11Line(c)})
+			}
+			return
+		}
+		seen[h] = c
+	}
+	pick := func(k int, code *int) string { s := strs[*code%len(strs)]; *code /= len(strs); _ = k; return s }
+	for _, n := range nums {
+		for _, h := range nums {
+			for _, a := range amts {
+				for code := 0; code < 1<<6; code++ {
+					x := code
+					add(&skytypes.MsgSendToPalomaClaim{EventNonce: 1, EthBlockHeight: h, SkywayNonce: n, Amount: a, Metadata: meta, TokenContract: pick(0, &x), EthereumSender: pick(1, &x),
+						PalomaReceiver: pick(2, &x), Orchestrator: pick(3, &x), ChainReferenceId: pick(4, &x), CompassId: pick(5, &x)})
+				}
+				for code := 0; code < 1<<5; code++ {
+					x := code
+					add(&skytypes.MsgLightNodeSaleClaim{EventNonce: 1, EthBlockHeight: h, SkywayNonce: n, Amount: a, Metadata: meta, ClientAddress: pick(0, &x), SmartContractAddress: pick(1, &x),
+						Orchestrator: pick(2, &x), ChainReferenceId: pick(3, &x), CompassId: pick(4, &x)})
+				}
+			}
+			for _, b := range nums {
+				for code := 0; code < 1<<4; code++ {
+					x := code
+					add(&skytypes.MsgBatchSendToRemoteClaim{EventNonce: 1, EthBlockHeight: h, SkywayNonce: n, BatchNonce: b, Metadata: meta, TokenContract: pick(0, &x),
+						Orchestrator: pick(1, &x), ChainReferenceId: pick(2, &x), CompassId: pick(3, &x)})
+				}
+			}
+		}
+	}
+}
+
 func TestC11(t *testing.T) {
 	r := NewRec(t, "C11")
 	defer r.Close()
 	meta := valsettypes.MsgMetadata{Creator: "c", Signers: []string{"c"}}
+	c11CrossType(t, r, meta)
 	for i := 0; i < r.N; i++ {
 		// ---- random claims of each type ----
 		sp := &skytypes.MsgSendToPalomaClaim{EventNonce: r.U64(), EthBlockHeight: r.U64(), TokenContract: r.c11Str(), Amount: r.c11Int(), EthereumSender: r.c11Str(),
